@@ -2,7 +2,7 @@
 # tryround.sh <root> <outsub> <ID> <pkgdir> <mA> <mB> [extra check ids]   try both changes of one agent delivery
 root=$1; sub=$2; id=$3; pkg=$4; a=$5; b=$6; extra=${7:-}
 for m in $a $b; do
-  demo=$root/$id/$sub/zz_demo_${m}_test.go
+  demo=$(readlink -f $root/$id/$sub/zz_demo_${m}_test.go)
   # the demo's package directory may differ per change: read it from the demo's first line if it names one
   p=$pkg; hint=$(head -3 $demo | grep -o -E "(bitmap|bmtree|bitstr|bitword|sigbits|pbcmpl|iohelper|size)" | head -1); [ -n "$hint" ] && p=$hint
   echo "== $id $m ($p): $(tools/trymut.sh $root/$id/$sub/$m.diff $demo $p "$id $extra" 2>&1 | grep -E "^check|DEMO|SUITE|PATCH" | tr '\n' ' ')"
